@@ -74,6 +74,10 @@ def cases(tier, seed):
         # heteroskedastic noise (a noise GP inside the likelihood): value and gradients w.r.t. every parameter, the noise GP's included
         for n_ in (4, 7):
             yield {"kind": "hetero", "n": n_, "objective": "mll", "seed": rnd.randrange(10**6)}
+        # the objective is handed a likelihood OBJECT: its noise is the S of the definition, also when the model was built
+        # with another object (scoring a model under another noise level / noise model; a deep copy scored with the original's)
+        for which, n_ in itertools.product(("other_gauss", "fixed", "deepcopy_then_move"), (3, 6)):
+            yield {"kind": "other_likelihood", "which": which, "n": n_, "objective": "mll", "seed": rnd.randrange(10**6)}
         # priors handed to the constructors (`<parameter>_prior=`): each must enter at the constrained value of ITS parameter
         for variant in ("cyl", "std"):
             yield {"kernel": {"k": "ctor_" + variant}, "mean": "constant", "lik": "gauss", "n": rnd.choice([3, 6]), "d": 2, "batch": [], "priors": "ctor", "objective": rnd.choice(["mll", "loo"]),
@@ -349,6 +353,62 @@ def _hetero(case, ctx, g):
     ctx.cell({k: v for k, v in case.items() if k != "seed"}, nontrivial=True)
 
 
+def _other_likelihood(case, ctx, g):
+    import copy
+
+    import torch
+
+    import gpytorch
+    from vf import util
+
+    n = case["n"]
+    X, y = util.randn(g, n, 2), util.randn(g, n)
+    lik = gpytorch.likelihoods.GaussianLikelihood()
+
+    class _M(gpytorch.models.ExactGP):
+        def __init__(s):
+            super().__init__(X, y, lik)
+            s.mean_module = gpytorch.means.ConstantMean()
+            s.covar_module = gpytorch.kernels.ScaleKernel(gpytorch.kernels.RBFKernel())
+
+        def forward(s, x):
+            return gpytorch.distributions.MultivariateNormal(s.mean_module(x), s.covar_module(x))
+
+    model = _M()
+    util.randomize(model, g, 0.5)
+    if case["which"] == "other_gauss":
+        lik2 = gpytorch.likelihoods.GaussianLikelihood()
+        lik2.noise = float(lik.noise) * 3.0 + 0.2
+        scored = model
+    elif case["which"] == "fixed":
+        lik2 = gpytorch.likelihoods.FixedNoiseGaussianLikelihood(noise=util.rand(g, n) * 0.5 + 0.05, learn_additional_noise=True)
+        util.randomize(lik2, g, 0.4)
+        scored = model
+    else:
+        # the copy is scored with the ORIGINAL's likelihood object (tied noise); the copy's own likelihood then moves
+        scored = copy.deepcopy(model)
+        lik2 = lik
+        with torch.no_grad():
+            scored.likelihood.raw_noise.add_(1.3)
+    scored.train()
+    lik2.train()
+    mll = gpytorch.mlls.ExactMarginalLogLikelihood(lik2, scored)
+    got = mll(scored(X), y)
+    mx, Kxx = scored.mean_module(X), scored.covar_module(X).to_dense()
+    S_ = torch.diag_embed(lik2.noise.expand(n)) if case["which"] != "fixed" else torch.diag_embed(lik2.noise_covar.noise + lik2.second_noise)
+    ref = util.mvn_logpdf(y, mx, Kxx + S_) / n
+    ctx.close("mll_value", got, ref, "direct", cls="mll:objective_likelihood:" + case["which"])
+    p2 = [p_ for p_ in lik2.parameters()]
+    gg = torch.autograd.grad(got, p2, allow_unused=True, retain_graph=True)
+    gr = torch.autograd.grad(ref, p2, allow_unused=True)
+    for a_, b_ in zip(gg, gr):
+        ctx.close("mll_grad", torch.zeros_like(b_) if a_ is None else a_, b_, (1e-8, 1e-7), cls="mll:objective_likelihood:grad:" + case["which"])
+    if scored.likelihood is not lik2:
+        own = torch.autograd.grad(got, list(scored.likelihood.parameters()), allow_unused=True)
+        ctx.expect("mll_grad", all(o_ is None or bool((o_ == 0).all()) for o_ in own), "the objective depends on the model's own likelihood although it was handed another one", which=case["which"])
+    ctx.cell({k: v for k, v in case.items() if k != "seed"}, nontrivial=True)
+
+
 def run_case(case, ctx):
     import torch
 
@@ -359,6 +419,8 @@ def run_case(case, ctx):
     g = util.gen(case["seed"])
     if case.get("kind") == "hetero":
         return _hetero(case, ctx, g)
+    if case.get("kind") == "other_likelihood":
+        return _other_likelihood(case, ctx, g)
     if case.get("kind") == "sgpr_bound":
         from vf.checks import c09
 
